@@ -346,7 +346,7 @@ def control_flow_part(res, rnd, a, work):
             % C.cq_list(["\n map (fun w => [N.of_nat (fst w); snd w]) (%s)" % c12cf.render_coq(p_) for p_ in asts]))
     # the model of the lowering (Front/BondgoFlow.v: allocation of Front/Bondgo.v + flatten) on the same trees; programs with calls are not lowered
     body += ("From BM Require Import Front.BondgoFlow.\nDefinition A := Eval vm_compute in %s.\n"
-             % C.cq_list(["\n compile_codes %d %s" % (p_["nv"], c12cf.coq_stmts(p_["main"])) for p_ in asts]))
+             % C.cq_list(["\n (if lower_wf %d %s then compile_codes %d %s else [[99%%N]])" % (p_["nv"], c12cf.coq_stmts(p_["main"]), p_["nv"], c12cf.coq_stmts(p_["main"])) for p_ in asts]))
     ev = C.eval_cases("C12", "cf", body, names=("M", "A"), timeout=1800)
     wants, models = ev["M"], ev["A"]
     flow_compared = 0
@@ -444,7 +444,7 @@ def control_flow_part(res, rnd, a, work):
 
 
 def run(res, a):
-    failed = C.proof_part(res, "C12", extra_files=[os.path.join(C.COQ, "theories", "Properties", "C12cf.v")], trusted=[
+    failed = C.proof_part(res, "C12", extra_files=[os.path.join(C.COQ, "theories", "Properties", "C12cf.v"), os.path.join(C.COQ, "theories", "Properties", "C12flow.v")], trusted=[
         "Front/BondgoCF.v: source-level meaning of the control-flow subset (hand-written, cross-checked against an independent interpreter "
         "while it was written); it is the oracle of the control-flow comparison",
         "Front/BondgoProto.v (worker protocol LTS) and Front/Bondgo.v (code generation for the register-variable subset) are "
